@@ -8,6 +8,8 @@ import pipeline
 import cc
 
 ASSUME = [
+    "the two event kinds of the model go over the wire as EVA / EVB, as STREAM / STREAM_BW or as CIRC_MINOR / CIRC (every other "
+    "execution uses a pair of Tor's names of which one is the beginning of the other)",
     "liveness (C01, C03 design checks ControlConn_Live_*): under weak fairness of Tor's own steps - it goes on sending the lines of what "
     "it has begun and answers the command that is written - every command ever submitted is eventually resolved and the queue drains "
     "again and again (TLC, small constants; the historic stuck-queue mechanism must yield a counterexample); this is a property of the "
@@ -176,7 +178,9 @@ def run(pid, tier, seed):
         for j in range(reps):
             seg = segs[(i + j * 3 + seed) % len(segs)]
             # in every third execution the caller of a plain command looks at its outcome only after the reply is in
-            t = cc.replay(s, seg, random.Random(seed * 1000003 + i), late_attach=(i % 3 == 1))
+            # in every other execution the two event kinds carry names of Tor's of which one is the beginning of the other
+            wire = [None, dict(EVA="STREAM", EVB="STREAM_BW"), None, dict(EVA="CIRC_MINOR", EVB="CIRC")][i % 4]
+            t = cc.replay(s, seg, random.Random(seed * 1000003 + i), late_attach=(i % 3 == 1), wire=wire)
             traces.append(t)
             meta.append((src, seg))
         h = common.digest(s)
@@ -234,7 +238,7 @@ def verdict(pid, rep, traces, meta, res, runs):
             rep.violation("real execution is not a behaviour of ControlConn: step %d (%s) of a %s script under segmentation %s; "
                           "observed %s" % (k + 1, step and step["a"], meta[i][0], traces[i]["seg"],
                                            json.dumps(step and step["obs"])[:400]),
-                          dict(property=pid, module="ControlConn", seg=traces[i]["seg"], late=traces[i].get("late", False), script=strip(traces[i]),
+                          dict(property=pid, module="ControlConn", seg=traces[i]["seg"], late=traces[i].get("late", False), wire=traces[i].get("wire"), script=strip(traces[i]),
                                matched=k, failing_step=step, errors=traces[i].get("errors")))
             reported += 1
     rep.cov["rejected_traces"] = len(bad)
@@ -242,7 +246,7 @@ def verdict(pid, rep, traces, meta, res, runs):
 
 def replay(pid, path):
     p = json.load(open(path))
-    t = cc.replay(p["script"], tuple(p["seg"]), random.Random(0), late_attach=p.get("late", False))
+    t = cc.replay(p["script"], tuple(p["seg"]), random.Random(0), late_attach=p.get("late", False), wire=p.get("wire"))
     res, r = tlc.validate_traces("ControlConnTrace", "ControlConnTrace.cfg", [t])
     x = res[0]
     print("replay: matched %d of %d steps" % (x["matched"], x["wanted"]))
